@@ -28,6 +28,7 @@ type Frame struct {
 	ranges   map[ssa.Value]string // Range instr -> seen-set state key
 	paramEnv map[string]Val
 	curBlock *ssa.BasicBlock
+	pkgPath  string // for contract evaluation without a function
 }
 
 type deferred struct {
@@ -461,6 +462,8 @@ func (f *Frame) loopCut(li *loopInfo, cur *State) {
 	// 2. havoc what the loop modifies
 	// allocation counter only grows (bumped first: references in havocked memory are below the new counter)
 	oldNext := un.H(cur, "$next", SInt)
+	un.heapSort["$limit"] = SInt
+	cur.H["$limit"] = oldNext
 	newNext := un.fresh("next", SInt)
 	un.setH(cur, "$next", newNext)
 	un.assume(cur, Ge(newNext, oldNext))
@@ -475,6 +478,12 @@ func (f *Frame) loopCut(li *loopInfo, cur *State) {
 	}
 	for _, k := range sortedBoolKeys(mods) {
 		if k == "*" || k == "*nonghost" {
+			continue
+		}
+		if strings.HasPrefix(k, "new:") {
+			if !mods[k[4:]] && !mods["*"] {
+				un.havocFresh(cur, k[4:])
+			}
 			continue
 		}
 		if s, ok := un.heapSort[k]; ok {
